@@ -1155,6 +1155,24 @@ def s_option_copied(eng, frame, st, args, fj, depth, site):
         yield s2, (some(_val(eng, s2, payload)) if tag == "Some" else NONE)
 
 
+def s_option_and_then(eng, frame, st, args, fj, depth, site):
+    for s2, tag, payload in split_option(eng, st, args[0]):
+        if tag == "None":
+            yield s2, NONE
+        else:
+            yield from call_closure(eng, s2, args[1], [payload], depth, site)
+
+
+def s_option_context(eng, frame, st, args, fj, depth, site):
+    # anyhow::Context for Option<T>: None -> Err(msg), Some(x) -> Ok(x)
+    RES = "std::result::Result"
+    for s2, tag, payload in split_option(eng, st, args[0]):
+        if tag == "Some":
+            yield s2, ("agg", RES, "Ok", (("0", payload),))
+        else:
+            yield s2, ("agg", RES, "Err", (("0", ("call", "anyhow::Error::msg", (), None)),))
+
+
 def s_option_unwrap(eng, frame, st, args, fj, depth, site):
     for s2, tag, payload in split_option(eng, st, args[0]):
         if tag == "Some":
@@ -1305,6 +1323,9 @@ DEFAULT_SUMMARIES = {
     "std::option::Option::copied": s_option_copied,
     "std::option::Option::cloned": s_option_copied,
     "std::option::Option::unwrap": s_option_unwrap,
+    "std::option::Option::and_then": s_option_and_then,
+    "anyhow::context::<impl anyhow::Context<T, std::convert::Infallible> for std::option::Option<T>>::context": s_option_context,
+    "anyhow::context::<impl anyhow::Context<T, std::convert::Infallible> for std::option::Option<T>>::with_context": s_option_context,
     "std::time::Duration::div_f32": s_div_f32,
     "std::time::Duration::div_f64": s_div_f32,
     "std::ops::Try::branch": s_try_branch,
